@@ -37,6 +37,11 @@ pub fn alphabet() -> Vec<BOp> {
         BOp::SelectBlock(Some(2)),
         BOp::PopInstruction,
         BOp::Continue,
+        BOp::NameFunction(0),
+        BOp::NameFunction(1),
+        BOp::SelectByName(0),
+        BOp::SelectByName(1),
+        BOp::FindReturnBlocks,
     ]
 }
 
